@@ -6,6 +6,7 @@ V12 = {
     "full12": dict(ver="12", helloVerify=True, **NOCID),
     "nohv12": dict(ver="12", helloVerify=False, **NOCID),
     "psk12": dict(ver="12", helloVerify=True, auth="psk", suite="TLS_PSK_WITH_AES_128_GCM_SHA256", **NOCID),
+    "psknohint12": dict(ver="12", helloVerify=True, auth="psk", suite="TLS_PSK_WITH_AES_128_GCM_SHA256", noPskHint=True, **NOCID),
     "ecdhepsk12": dict(ver="12", helloVerify=True, auth="ecdhepsk", suite="TLS_ECDHE_PSK_WITH_AES_128_CBC_SHA256", **NOCID),
     "clientauth12": dict(ver="12", helloVerify=True, clientAuth=4, clientCert=True, verify=True, **NOCID),
     "resume12": dict(ver="12", helloVerify=True, resume=True, **NOCID),
@@ -35,5 +36,5 @@ VDUAL = {
 ALL = dict(V12, **V13, **VDUAL)
 
 # which Handshake12 model variant a scenario follows (same flights, one datagram per flight)
-MODEL12 = {"full12": "full", "psk12": "full", "ecdhepsk12": "full", "clientauth12": "full", "cid12": "full", "stale12": "full", "stores12": "full",
+MODEL12 = {"full12": "full", "psk12": "full", "psknohint12": "full", "ecdhepsk12": "full", "clientauth12": "full", "cid12": "full", "stale12": "full", "stores12": "full",
            "nohv12": "nohv", "resume12": "resume", "split12": "split"}
